@@ -1,64 +1,47 @@
 #!/usr/bin/env python3
 """tools/mkfixprompts.py  writes notes/prompts/fix4-*.txt: briefs for the builders that strengthen checks after the
-round-4 seeded changes that were missed (development aid)."""
+seeded changes of the latest round that were missed (development aid)."""
 import json, os
 ROOT = os.path.dirname(os.path.dirname(os.path.abspath(__file__)))
 
 TASKS = {
- "run": ("RUN-C", "C01/C02/C05 (run group)",
-   "all run-group files: coq/Model/Run.v, Spec/Run.v, Proof/RunCore.v, RunExtra.v, RunTable.v, RunVerdict.v, C01/C02/C03/C05 Spec/Corr/Proof/Props, harness/vcheck/props/runprog.py, c01.py, c02.py, c03.py, c05.py (C03 must keep passing)",
-   ["C01-5", "C02-6", "C05-6"],
-   "Notes: (1) C01-5 needs TWO runs of one instance with the first run interrupted after catching >= 2 exceptions; C02 already runs every program twice but `python3 tools/seed.py run C01-5 C02` is also silent - find out why (first runs that propagate an exception may be excluded from the re-run, or alpha forgets the outcome list) and make the re-run clause of C02 and/or a two-run form of C01 see it. "
-   "(2) C02-6 is about WHAT KIND of attribute patch() targets: the model's store is a flat map on one scratch object. Extend the patch-target domain with kinds whose get/set/delete semantics differ: plain instance attribute, class attribute seen through an instance or a subclass (inherited), property with setter, inherited __slots__ slot on a subclass with __dict__, missing. The seeding agent also reported that on the UNCHANGED tree patching Base.x and then Sub.x in one test leaves Sub.x shadowed with the patched Base value after the run (MonkeyPatcher reads the original with getattr, restores with setattr) - reproduce it; if real it is a defect of C02's clause 'every attribute changed with patch() has its pre-test value (or is absent again)': model it faithfully, delimit it with finding_F25 + C02_refuted_F25, write the witness JSON for known_findings.json and a minimal patch proposal to notes/fixes/. "
-   "(3) C05-6: nothing in a program ever READS a detail before the outcome; add a side-effect-free 'peek' act (the body / a cleanup / an addOnException handler evaluates a detail's bytes mid-run) - the model ignores it, the statement (bytes as of report time) is unchanged."),
- "C04": ("FIX4-C04", "C04",
+ "run": ("RUN-D", "C01 (run group)",
+   "all run-group files: coq/Model/Run.v, Spec/Run.v, Proof/RunCore.v, RunExtra.v, RunTable.v, RunVerdict.v, C01/C02/C03/C05 Spec/Corr/Proof/Props, harness/vcheck/props/runprog.py, c01.py, c02.py, c03.py, c05.py (all four must keep passing)",
+   ["C01-8"],
+   "Note: the way the RunTest object is CONSTRUCTED is not in the input domain: only the default factory is used. Add custom RunTest factories to the harness in every way the code supports (class attribute run_tests_with, the runTest= constructor argument, the @run_test_with decorator): a RunTest subclass whose __init__ takes (case, handlers=None, last_resort=None), one taking (case, *args, **kwargs), a plain function factory with explicit and with star arguments, functools.partial(RunTest), and an old-style factory that does not accept last_resort at all (the code retries without it on TypeError). On the current code the bracket/one-outcome/propagation statement holds for all of them (check!), so the model needs at most a flag that it ignores; the statement is unchanged."),
+ "C04": ("FIX6-C04", "C04",
    "coq/Model/Result.v, coq/Spec/C04.v, Corr/C04.v, Proof/C04.v, Props/C04.v, harness/vcheck/props/c04.py, tabs/resulttabs.py, failfast.py",
-   ["C04-5", "C04-6"],
-   "Notes: C04-5 needs an interleaving (stop() on one TFR adapter while a sibling holds the shared semaphore) - C04's histories are sequential; decide whether to add a minimal two-adapter interleaving form for the 'stop() reaches the underlying result' clause here (harness/vcheck/sched.py is the deterministic scheduler used by C12/C13; do not change its behaviour) or to show it belongs to C12 (`tools/seed.py run C04-5 C12` is currently also silent; another builder, CONC13-R4, is strengthening C12 for the sibling change C12-5 which is the same acquire(False) idea - do not edit C12 files). "
-   "C04-6 needs the REAL process exit status with a problem count that is a non-zero multiple of 256: extend the subprocess glue samples (counts 255, 256, 257, 512 mixes) and state the exit-status clause over the OS-visible status (status mod 256) in the model (`exit_status`) so that the theorem C04_exit covers it."),
- "C07": ("FIX4-C07", "C07",
-   "coq/Model/Assertions.v, Model/TextRepr.v, coq/Spec/C07.v, Corr/C07.v, Proof/C07*.v, Props/C07.v, harness/vcheck/props/c07.py, gen_c07.py",
-   ["C07-5"],
-   "Note: the position of the `super().setUp()` / `super().tearDown()` upcall relative to the statements of setUp/tearDown is not part of the program; add it (statements before and after the upcall) - on the current code it does not matter, which is exactly what the statement needs. (C07-6, MatchesException.__str__ with a tuple of types, is caught.)"),
- "C08": ("FIX4-C08", "C08",
-   "coq/Model/Adapters.v, AdaptersLit.v, coq/Spec/C08.v, Corr/C08.v, Proof/C08.v, Props/C08.v, harness/vcheck/props/c08.py, tabs/bytest.py",
-   ["C08-6"],
-   "Note: the TestByTestResult callback `on_test` never raises in the harness. Add fault injection at the callback (and, if cheap, at the other user-supplied callables in C08's anchors) with the statement clause that later tests are still reported once with THEIR OWN tags/details/times; check first what the real code does after on_test raises (who propagates what). (C08-5 is caught.)"),
- "C11": ("FIX4-C11", "C11",
-   "coq/Model/StreamDecor.v, coq/Spec/C11.v, Corr/C11.v, Proof/C11.v, Props/C11.v, harness/vcheck/props/c11.py",
-   ["C11-5", "C11-6"],
-   "Note: both are value-domain blind spots: timestamps are only aware datetimes or missing (add naive datetimes, None passed explicitly, non-datetime placeholder objects), route codes never the empty string (add '', '/', 'a/', ' ')."),
- "conc": ("CONC13-R4", "C12 and C13",
-   "coq/Model/Tfr.v, Model/Concur.v, coq/Spec/C12.v, C13.v, Corr/C12.v, C13.v, Proof/C12.v, C13*.v, Props/C12.v, C13.v, harness/vcheck/props/c12.py, c13.py, harness/vcheck/sched.py (keep backward compatible)",
-   ["C12-5", "C13-6"],
-   "Notes: C12-5 (`stop()` uses acquire(False)): thread B calling stop() while thread A is inside its block should be generated already (RGuard GStop) - find out why it is silent (does the harness's semaphore double accept acquire(False)? if a non-blocking acquire is not in the model of the semaphore, add it to the double so that the real code path runs, and make sure schedules with B's stop landing inside A's block exist); the related change C04-5 (stop request remembered and forwarded later; `python3 tools/seed.py run C04-5 C12`) should then be caught by C12 as well. "
-   "C13-6: a stream-native worker passing timestamp=None EXPLICITLY (replaying recorded event dicts with result.status(**event)) - workers in the harness only omit the keyword; add worker kinds that pass explicit None and explicit own timestamps."),
- "C15": ("TW15-R4", "C15",
+   ["C04-8"],
+   "Note: the command-line glue samples never run an EMPTY selection: a module with no tests, a --load-list that matches nothing, a unittest.TestCase class skipped entirely with @unittest.skip (on Python 3.12 such skips bypass startTest, so testsRun stays 0), a run whose every test is skipped. The statement: exit status 0 exactly when wasSuccessful() (the printed summary says OK). Add them to the subprocess and in-process samples (python -m testtools.run and TestProgram), for both verdicts."),
+ "C07": ("FIX6-C07", "C07",
+   "coq/Model/Assertions.v, Model/TextRepr.v, coq/Spec/C07.v, Corr/C07.v, Proof/C07*.v, Props/C07.v, harness/vcheck/props/c07.py, gen_c07.py (gen_c06.py is shared with C06: additive changes only, C06 must keep passing)",
+   ["C07-7", "C07-8"],
+   "Note: both are in the describability part (IDesc cases: every stock matcher instantiated with mismatching values; str(matcher), describe(), get_details(), str(MismatchError) verbose or not, and assertThat/assert_that/expectThat on it). Blind spots in the ARGUMENT domain of the stock matchers: (a) text arguments containing characters that are special to the formatting machinery used to build messages: braces { } {0} {name}, percent signs %s %d %%, backslashes, in regex patterns (MatchesRegex, and MatchesException with a regex), in expected strings of StartsWith/EndsWith/Contains/Equals, in Annotate messages, in file names and contents; (b) container-typed arguments given as tuple / list / set / frozenset / generator where the constructor accepts an iterable (DirContains filenames, MatchesException with a tuple of types, IsInstance with several types, MatchesListwise/MatchesSetwise/MatchesAny/MatchesAll argument lists, TarballContains paths), including the empty and the 1-element tuple. Extend gen_c07.py systematically over ALL names in testtools.matchers.__all__ (not only the two matchers of the patches)."),
+ "conc": ("CONC13-R5", "C13",
+   "coq/Model/Concur.v, coq/Spec/C13.v, Corr/C13.v, Proof/C13*.v, Props/C13.v, harness/vcheck/props/c13.py, harness/vcheck/sched.py (backward compatible)",
+   ["C13-7"],
+   "Note: sub-suites of a ConcurrentStreamTestSuite always get DISTINCT route codes in the harness; the docstring allows equal ones (for example all None). Let route codes repeat (None, equal strings) in model input, Spec (events carry that worker's own route code - equal codes are then indistinguishable by code, so identify a worker's events by the test ids it runs, which the harness keeps distinct), generator and driver; every worker must still be joined, every event delivered, abort must stop every started worker."),
+ "C15": ("TW15-R5", "C15",
    "coq/Model/Reactor.v, Model/Spinner.v, coq/Spec/C15.v, Corr/C15.v, Proof/C15*.v, Props/C15.v, harness/vcheck/props/c15.py, harness/vcheck/vreactor.py (backward compatible)",
-   ["C15-5"],
-   "Note: needs TWO OR MORE re-entrant attempts inside one outer run with the first ReentryError caught by the caller (same Spinner and a different Spinner). (C15-6, connectionLost on leftover selectables, is caught.)"),
- "C16": ("FIX4-C16", "C16",
-   "coq/Model/Content.v, Utf8.v, Mime.v, MimeCt.v (Mime*.v shared with C09: keep C09 building and passing), coq/Spec/C16.v, Corr/C16.v, Proof/C16.v, Utf8Sweep.v, Props/C16.v, harness/vcheck/props/c16.py, tabs/ctc16.py",
-   ["C16-5", "C16-6"],
-   "Notes: C16-5: readers always return full reads; add stream kinds whose read(n) legitimately returns fewer than n bytes before EOF (raw/unbuffered streams, pipes; a segmented reader double) to the _iter_chunks / read-loop model (`C16_read_loop`, `C16_iter_chunks` should quantify over ANY read-size oracle that returns 1..n bytes until EOF). "
-   "C16-6: every Content is read once, completely; add histories of reads on ONE Content object: iter_text abandoned part-way, two iterators advanced alternately, repeated complete reads, for utf-8 with cuts inside multi-byte sequences and for BOM-carrying codecs if the codec model allows (otherwise sampled, say so) - statement: each complete read equals decoding the whole byte string, independent of other readers."),
- "C18": ("FIX4-C18", "C18",
-   "coq/Model/Router.v, coq/Spec/C18.v, Corr/C18.v, Proof/C18.v, Props/C18.v, harness/vcheck/props/c18.py",
-   ["C18-6"],
-   "Note: add_rule calls that are REJECTED (TypeError for '/' in route_prefix, missing/extra keyword; ValueError for unknown policy) with do_start_stop_run=True and False, before and during a run, followed by a corrected retry with the same sink: a rejected add_rule must leave the router unchanged (sink not registered, not started), a retried one registers once. (C18-5 is caught.)"),
+   ["C15-8"],
+   "Note: stop requests (reactor.stop()) only ever arrive from the function, from its delayed calls or via a signal. Add stop requests issued DURING REACTOR START-UP, before the function has been called: hooks registered with reactor.callWhenRunning (or addSystemEventTrigger('after', 'startup', ...)) before Spinner.run is entered that call reactor.stop() directly; also hooks that only schedule something. Statement clause: the reactor was stopped before the function produced a result -> NoResultError (and everything is restored / cleaned as on every path). The virtual reactor must run such hooks in registration order before the Spinner's own callWhenRunning hook, as the real reactor does (check with the real reactor sample)."),
+ "C18": ("FIX6-C18", "C18",
+   "coq/Model/Router.v (also imported by C11: keep C11 building and passing), coq/Spec/C18.v, Corr/C18.v, Proof/C18.v, Props/C18.v, harness/vcheck/props/c18.py",
+   ["C18-7"],
+   "Note: histories never RE-MAP a key: two accepted add_rule calls for the same route prefix (or the same test id) with different sinks, before and during a run, and never let ONE sink serve several rules (two prefixes, a prefix and a test id, a rule and the fallback) - check what wf_distinct excludes and widen it as far as the code supports. Statement: after re-mapping, events for the key go to the new sink only; every sink registered with do_start_stop_run=True that is still referenced by some rule (and, as the current code does, also one that no rule references any more - check the real code and state exactly that) receives startTestRun/stopTestRun once per run; a sink is never stopped while a rule still routes to it."),
 }
 
 TEMPLATE = """Read /verif/notes/AGENT_PREAMBLE.md first and follow its rules (mandatory reading listed there: /verif/notes/BUILDER_GUIDE.md, /verif/DESIGN.md sections 3-5, the "### Cxx" entries of your properties and section 11, the finished example C19, the /verif/properties.jsonl entries). Also read the reports under /verif/notes/reports/ for your properties (earlier builders' reports; the latest sections describe the current model).
 
 You are builder %(name)s. Property %(prop)s has a finished, integrated check. Your files: %(files)s. If you must change a file shared with another property, the other properties' Props/Corr targets must still build and their quick checks still pass.
 
-Independently written breaking changes (round 4) that `./check` currently MISSES (`python3 tools/seed.py run <id> <prop>` -> exit 0):
+Independently written breaking changes (round 5) that `./check` currently MISSES (`python3 tools/seed.py run <id> <prop>` -> exit 0):
 %(seeds)s
 %(extra)s
 
 Job: for each, work out the blind spot and strengthen the check GENERALLY - extend the input domain of model / Spec / generator / driver (never special-case a patch) so that the whole class of such changes is exposed; `spec_okb` must not demand more than the property states, and the model must stay faithful to the current code (check the real code's behaviour on the new inputs FIRST; if the unchanged code violates the property's words on some new input, that is a defect: do not edit /repo - write witness + minimal patch to notes/fixes/, delimit it with a `findings` predicate + `_refuted` theorem, and report it). All Props theorems stay universally quantified, closed under the global context, no Admitted/admit/Axiom. Where part of a new domain cannot reasonably be carried by the Coq model, say so explicitly, keep it as a sampled extension judged by `spec_okb`, and name it in the module's ASSUMPTIONS/RULE - but prefer modelling.
 Acceptance: `./check <prop> --tier quick` exit 0 on /repo HEAD for seeds 0,1,2 (<= ~2 min) and `--tier thorough --seed 1` exit 0 (<= ~12 min) for every property you touch; the listed seeds now give VIOLATION with a concrete failing input; every earlier seed of your properties (`python3 tools/seed.py table | grep <prop>-`) and the fix reverts relevant to them (see notes/revert-results.txt) are still caught; 2-3 further mutants of your own in the same spirit caught, one benign rewrite silent.
-`timeout` on every coqc/make; other builders share the 16 cores: build only your targets with tools/coqmake. Do not `git commit`. Never modify /repo. Append a section "## Strengthening round 4" to the report file(s) of your properties under /verif/notes/reports/ and return a concise report (blind spots, what changed incl. files, theorem changes, case counts/timing, seeds now caught, anything found in /repo). Time budget ~3 hours.
+`timeout` on every coqc/make; other builders share the 16 cores: build only your targets with tools/coqmake. Do not `git commit`. Never modify /repo. Append a section "## Strengthening round 5" to the report file(s) of your properties under /verif/notes/reports/ and return a concise report (blind spots, what changed incl. files, theorem changes, case counts/timing, seeds now caught, anything found in /repo). Time budget ~3 hours.
 """
 
 for key, (name, prop, files, seeds, extra) in TASKS.items():
@@ -68,5 +51,5 @@ for key, (name, prop, files, seeds, extra) in TASKS.items():
         lines.append(" * /verif/seeded/%s (patch.diff, demo.py, meta.json): %s NEEDS: %s" % (
             s, " ".join(m.get("summary", "").split())[:700], " ".join(m.get("needs_to_manifest", "").split())[:500]))
     text = TEMPLATE % dict(name=name, prop=prop, files=files, seeds="\n".join(lines), extra=extra)
-    open(os.path.join(ROOT, "notes", "prompts", "fix4-%s.txt" % key), "w").write(text)
-    print("wrote fix4-%s.txt" % key, len(text))
+    open(os.path.join(ROOT, "notes", "prompts", "fix6-%s.txt" % key), "w").write(text)
+    print("wrote fix6-%s.txt" % key, len(text))
